@@ -62,6 +62,7 @@ FAMILIES = ["using", "finally_action", "do_finally", "do_action", "using", "do",
 CASES = {"quick": 720, "thorough": 36000}
 REQUIRED = {
     "set:families": 10,
+    "subscriber_raises_cases": {"quick": 700, "thorough": 35000},
     "dispose_at_termination_instant:early": {"quick": 150, "thorough": 6000},
     "dispose_at_termination_instant:late": {"quick": 150, "thorough": 6000},
     "dispose_inside_on_next": {"quick": 300, "thorough": 12000},
@@ -714,9 +715,59 @@ def run_case(seed: int, idx: int, res: UnitResult) -> None:
         check_variant(case, v, lab, obs, res, rep, desc)
 
 
+def subscriber_raises_case(seed: int, idx: int, res: UnitResult) -> None:
+    """The SUBSCRIBER's own callback raises (its k-th on_next, its on_error or on_completed handler; also: no on_error handler at
+    all, so that the library's default handler re-raises): the subscription is over either way, and the resource / finally action
+    must have been released exactly once by the end of the run."""
+    from reactivex.disposable import Disposable
+    r = case_rng(seed, ID, "subscriber-raises", idx)
+    fam = r.choice(["using", "finally_action", "do_finally"])
+    term = r.choice(["E", "C"])
+    n = r.randint(0, 3)
+    tl = [(5.0 * (i + 1), "N", i) for i in range(n)] + [(5.0 * (n + 1), term, RuntimeError("source failed") if term == "E" else None)]
+    where = r.choice([(term, 1), (term, 1), ("N", r.randint(1, n)) if n else (term, 1)])
+    style = r.choice(["observer", "callbacks", "no_error_handler"]) if where[0] == "E" else r.choice(["observer", "callbacks"])
+    lab = Lab()
+    src = (lab.sync if r.random() < 0.3 else lab.cold)("s", tl)
+    released = [0]
+
+    def release() -> None:
+        released[0] += 1
+    if fam == "using":
+        o = rx.using(lambda: Disposable(release), lambda _res: src)
+    elif fam == "finally_action":
+        o = src.pipe(ops.finally_action(release))
+    else:
+        o = src.pipe(_do.do_finally(release))
+    top = lab.observer("top", raise_at=None if style == "no_error_handler" else where, inner=False)
+
+    def do_sub() -> None:
+        if style == "observer":
+            top.subscribe_to(o)
+        elif style == "callbacks":
+            top.subscribe_to(o, as_callbacks=True)
+        else:
+            top.subscription = o.subscribe(top.on_next, None, top.on_completed, scheduler=lab.ts)
+    def guarded() -> None:
+        try:
+            do_sub()
+        except Exception:     # the raise came back out of subscribe() (synchronous source): expected, recorded by the probes
+            pass
+    lab.at(200.0, guarded)
+    lab.run()
+    desc = {"family": fam, "subscriber_raises_in": list(where), "style": style, "source": show_timeline(tl)}
+    res.count("subscriber_raises_cases")
+    res.case(key=desc, nontrivial=True)
+    if released[0] != 1:
+        res.violation("C40:%s:subscriber-callback-raised:released-%s" % (fam, "never" if released[0] == 0 else "twice"),
+                      {"why": "the subscriber's own callback raised; the resource / finally action was released %d time(s), expected exactly 1" % released[0],
+                       "case": desc, "received": show(top.timed())}, {"seed": seed, "idx": idx, "family": "subscriber-raises"})
+
+
 def run_unit(unit: dict, res: UnitResult) -> None:
     for idx in range(unit["lo"], unit["hi"]):
         run_case(unit["seed"], idx, res)
+        subscriber_raises_case(unit["seed"], idx, res)
 
 
 def units(tier: str, seed: int) -> list[dict]:
@@ -724,4 +775,7 @@ def units(tier: str, seed: int) -> list[dict]:
 
 
 def replay(rep: dict, res: UnitResult) -> None:
+    if rep.get("family") == "subscriber-raises":
+        subscriber_raises_case(rep["seed"], rep["idx"], res)
+        return
     run_case(rep["seed"], rep["idx"], res)
